@@ -314,7 +314,7 @@ class ValidatorHarness(Harness):
         frame = bytes(frame)
         X = R.exceptions
         viol = None
-        saved = R.modbus._modbus_checksum
+        saved = self._saved_crc = R.modbus._modbus_checksum
         if stubbed:
             # 5/6-byte frames with a foreign function code: the 'trailer' overlaps the header bytes, the model's
             # CRC value cannot be realised by patching; evaluate the real validator with the model's CRC values
@@ -346,7 +346,33 @@ class ValidatorHarness(Harness):
             viol = f"{self.framing}/{self.kind}: validator raised {type(e).__name__}"
         wf = self.concrete_wellformed(frame, a)
         if stubbed:
-            return {"outcome": outcome, "violation": None, "observed": f"frame={frame.hex()} (crc stubbed) outcome={outcome}"}
+            # The model relies on a CRC value that cannot be patched in (the 'trailer' overlaps the header of a 5/6
+            # byte frame).  Decide by brute force over the bytes the CRC covers whether a real frame of this shape
+            # shows the violation; if none does, the model is an artefact of the uninterpreted CRC (spurious).
+            found = None
+            if self.mode == "C01" and outcome == "accept":
+                R.modbus._modbus_checksum = self._saved_crc
+                for b2 in range(256):
+                    for rest in range(256 if len(frame) == 6 else 1):
+                        f2 = bytearray(frame)
+                        f2[2] = b2
+                        if len(frame) == 6:
+                            f2[3] = rest
+                        c = crc16_reference(bytes(f2[2:len(f2) - 2]))
+                        f2[-2], f2[-1] = c & 0xFF, c >> 8
+                        try:
+                            if cmd.validator(bytes(f2)) is True and not self.concrete_wellformed(bytes(f2), a):
+                                found = bytes(f2)
+                                break
+                        except Exception:  # noqa: BLE001
+                            pass
+                    if found:
+                        break
+            if found:
+                return {"outcome": outcome, "violation": f"{self.framing}/{self.kind}: accepted a frame that is not a well-formed answer",
+                        "observed": f"frame={found.hex()} accepted"}
+            return {"outcome": outcome, "violation": None, "spurious": True,
+                    "observed": f"frame={frame.hex()} (crc stubbed, no real frame of this shape) outcome={outcome}"}
         if self.mode == "C01" and outcome == "accept" and not wf:
             viol = f"{self.framing}/{self.kind}: accepted a frame that is not a well-formed answer"
         if self.mode == "C02":
